@@ -1129,7 +1129,7 @@ func c21Shards() int {
 
 // c21ComposeFrac[number of expression contexts][0 quick, 1 thorough]: the
 // fraction 1/n of the compositions that is run.
-var c21ComposeFrac = [3][2]uint64{{1, 1}, {24, 1}, {1600, 10}}
+var c21ComposeFrac = [3][2]uint64{{1, 1}, {32, 1}, {2400, 10}}
 
 // TestC21_Compose: exhaustive composition of contexts (see c21ComposeRule).
 // The registration passes the number of shards as rapid.checks (checks/C21.json:
